@@ -85,17 +85,20 @@ type v12FSMRun struct {
 	dirs    map[string]string
 	idx     uint64
 	gate    *v12Gate
+	names   v12Names
 }
 
 const v12GroupID = "g"
 
 func (r *v12FSMRun) state() v12State {
-	st := v12State{Gs: map[string]v12Group{}, Parts: map[string]int32{}, Idx: r.idx}
+	st := v12State{Gs: map[string]v12Group{}, Parts: map[string]int32{}, Paused: map[string][]int32{}, Idx: r.idx}
 	for _, v := range r.servers {
-		st.Gs[v] = v12Project(r.srv[v].metadata.GetConsumerGroup(v12GroupID))
+		st.Gs[v] = r.names.group(v12Project(r.srv[v].metadata.GetConsumerGroup(v12GroupID)))
 	}
 	for _, s := range r.streams {
-		st.Parts[s] = r.srv[r.servers[0]].metadata.countStreamPartitions(s)
+		// the partitions the stream HAS (read from the store, not through the callback
+		// the groups use: that one is code under test)
+		st.Parts[s], st.Paused[s] = v12MetaStream(r.srv[r.servers[0]].metadata, r.names.r(s))
 	}
 	return st
 }
@@ -124,6 +127,10 @@ func (r *v12FSMRun) admitted(op *proto.RaftLog) (ok bool) {
 		err = m.checkLeaveConsumerGroupPreconditions(op)
 	case proto.Op_CHANGE_CONSUMER_GROUP_COORDINATOR:
 		err = m.checkChangeGroupCoordinatorPreconditions(op)
+	case proto.Op_PAUSE_STREAM:
+		err = m.checkPauseStreamPreconditions(op)
+	case proto.Op_RESUME_STREAM:
+		err = m.checkResumeStreamPreconditions(op)
 	}
 	return err == nil
 }
@@ -141,6 +148,15 @@ func (r *v12FSMRun) applyAll(o map[string]interface{}, obs *v12Obs) {
 	}
 }
 
+// realList: the stream list of a request with the real names
+func (r *v12FSMRun) realList(step map[string]interface{}) []interface{} {
+	out := []interface{}{}
+	for _, s := range vFStrs(step, "streams") {
+		out = append(out, r.names.r(s))
+	}
+	return out
+}
+
 func (r *v12FSMRun) step(id int, step map[string]interface{}) v12Event {
 	a := vStr(step, "a")
 	args := map[string]interface{}{}
@@ -149,21 +165,26 @@ func (r *v12FSMRun) step(id int, step map[string]interface{}) v12Event {
 	case "CreateStream":
 		s, n := vStr(step, "s"), vInt(step, "n")
 		args["s"], args["n"] = s, n
-		r.applyAll(map[string]interface{}{"op": "CreateStream", "s": s, "n": float64(n),
+		r.applyAll(map[string]interface{}{"op": "CreateStream", "s": r.names.r(s), "n": float64(n),
 			"R": []interface{}{"r1", "r2", "r3"}, "ldr": "r1"}, &obs)
 	case "DeleteStream":
 		s := vStr(step, "s")
 		args["s"] = s
-		r.applyAll(map[string]interface{}{"op": "DeleteStream", "s": s}, &obs)
+		r.applyAll(map[string]interface{}{"op": "DeleteStream", "s": r.names.r(s)}, &obs)
+	case "Pause", "Resume":
+		// PAUSE_STREAM / RESUME_STREAM of one partition through Server.apply on both servers
+		s, p := vStr(step, "s"), vInt(step, "p")
+		args["s"], args["p"] = s, p
+		r.applyAll(map[string]interface{}{"op": a, "s": r.names.r(s), "pids": []interface{}{float64(p)}}, &obs)
 	case "CreateGroup":
 		c, coord := vStr(step, "c"), vStr(step, "coord")
 		args["c"], args["coord"], args["streams"] = c, coord, vFStrs(step, "streams")
-		r.applyAll(map[string]interface{}{"op": "CreateGroup", "g": v12GroupID, "c": c, "S": step["streams"],
+		r.applyAll(map[string]interface{}{"op": "CreateGroup", "g": v12GroupID, "c": c, "S": r.realList(step),
 			"coord": coord}, &obs)
 	case "Join":
 		c := vStr(step, "c")
 		args["c"], args["streams"] = c, vFStrs(step, "streams")
-		r.applyAll(map[string]interface{}{"op": "JoinGroup", "g": v12GroupID, "c": c, "S": step["streams"]}, &obs)
+		r.applyAll(map[string]interface{}{"op": "JoinGroup", "g": v12GroupID, "c": c, "S": r.realList(step)}, &obs)
 	case "Leave":
 		c, how := vStr(step, "c"), vStrDef(step, "how", "leave")
 		args["c"], args["how"] = c, how
@@ -240,11 +261,7 @@ func (r *v12FSMRun) step(id int, step map[string]interface{}) v12Event {
 		asg, _, err := r.srv[v].metadata.GetConsumerGroupAssignments(v12GroupID, c, e)
 		obs.Err = v12ErrClass(err)
 		if err == nil {
-			ret := map[string][]int32{}
-			for s, ps := range asg {
-				ret[s] = append([]int32{}, ps...)
-			}
-			obs.Ret = ret
+			obs.Ret = r.names.ret(asg)
 		}
 	default:
 		panic("unknown action " + a)
@@ -266,7 +283,7 @@ func TestVerifGroupsFSM(t *testing.T) {
 	defer func() { VerifGateHook = nil }()
 	for _, b := range sf.Behaviours {
 		run := &v12FSMRun{servers: vFStrs(b.Cfg, "servers"), streams: vFStrs(b.Cfg, "streams"),
-			srv: map[string]*Server{}, dirs: map[string]string{}, gate: gate}
+			srv: map[string]*Server{}, dirs: map[string]string{}, gate: gate, names: v12NamesOf(b.Cfg)}
 		for _, v := range run.servers {
 			run.dirs[v] = filepath.Join(base, fmt.Sprintf("%s%d", v, b.ID))
 			run.srv[v] = v06NewServer(v, run.dirs[v])
@@ -280,7 +297,7 @@ func TestVerifGroupsFSM(t *testing.T) {
 			}
 			for _, v := range run.servers {
 				op := &proto.RaftLog{Op: proto.Op_CREATE_STREAM, CreateStreamOp: v06BuildOp(map[string]interface{}{
-					"op": "CreateStream", "s": s, "n": n, "R": []interface{}{"r1", "r2", "r3"}, "ldr": "r1"}).CreateStreamOp}
+					"op": "CreateStream", "s": run.names.r(s), "n": n, "R": []interface{}{"r1", "r2", "r3"}, "ldr": "r1"}).CreateStreamOp}
 				if e := v06ApplyErr(run.srv[v], op, 0, false); e != "" {
 					t.Fatalf("initial stream: %s", e)
 				}
